@@ -54,10 +54,10 @@ add("C13", lambda tier: [Job("h_options", model=False, shim=False, unwind=4,
 # ------------------------------------------------------------------ start harness (shared)
 
 
-def start_jobs(tier, side, F=None):
+def start_jobs(tier, side, F=None, types=(1, 2, 3, 5, 6, 7)):
     jobs = []
     F = (1 if tier == "quick" else 2) if F is None else F
-    for it in (1, 2, 3, 5, 6, 7):
+    for it in types:
         jobs.append(Job("h_start", variant="side%d-in%d-F%d" % (side, it, F),
                         defines={"VP_SIDE": side, "VP_IN_TYPE": it, "VP_F": F, "VP_EINTR": 1,
                                  "VP_MAXEV": 1, "VP_EXTRA": 1},
@@ -144,24 +144,41 @@ add("C15", lambda tier: [stop_job(1, tier)])
 # ------------------------------------------------------------------ call histories
 
 
-def history_job(tier, F=0):
-    K = 1 if tier == "quick" else 2
-    return Job("h_history", variant="K%d-F%d" % (K, F),
-               defines={"VP_K": K, "VP_K2": 1, "VP_F": F, "VP_MAXEV": 1, "VP_NFD": 14, "VP_NOFD": 14},
+API = ["pid", "wait", "terminate", "kill", "stop", "read", "write", "close", "poll", "strerror"]
+
+
+def history_jobs(tier, F=0, which=range(10)):
+    """quick: the first call after the canonical prefix is fixed per job (10 jobs), the second is any of
+    the cheap calls; thorough: two fully symbolic calls + one cheap call in a single job as well"""
+    jobs = [history_job(tier, F, w) for w in which]
+    if tier == "thorough":
+        jobs.append(history_job(tier, F, None, K=2))
+    return jobs
+
+
+def history_job(tier, F=0, which=None, K=1):
+    d = {"VP_K": K, "VP_K2": 1, "VP_F": F, "VP_MAXEV": 1, "VP_NFD": 14, "VP_NOFD": 14}
+    if which is not None:
+        d["VP_WHICH"] = which
+    return Job("h_history", variant="%s-K%d-F%d" % (API[which] if which is not None else "any", K, F),
+               defines=d,
                unwind=16, params={"nfd": 14, "retry": 3, "input_max": 0},
                cbmc_flags=["--slice-formula"], timeout=1500, solvers=("cadical", "kissat"),
-               bounds={"calls_after_start": K, "faults_after_start": F, "children": 1})
+               bounds={"calls_after_prefix": "%d + 1 cheap" % K, "faults_after_start": F, "children": 1})
 
 
 HIST_ASSUME = STOP_ASSUME[:2] + [
-    "H_history: one optional call before start, start valid / rejected / failing with one fault, then K "
-    "symbolic calls over {pid, wait, terminate, kill, stop, read, write, close, poll, start, strerror} with "
-    "symbolic arguments (NULL handle, NULL / size-0 buffers, invalid streams, zero sources), then destroy; "
-    "blocking forever is permitted here (timing is decided by H_stop/H_wait/H_poll); the child performs no I/O",
+    "H_history: start valid or rejected; for a started handle a canonical prefix (any subset of streams closed, "
+    "time passing, optional terminate/kill, optional wait(0)) reaches every abstract state, then K symbolic "
+    "calls over {pid, wait, terminate, kill, stop, read, write, close, poll, strerror} with symbolic arguments "
+    "(NULL handle, NULL / size-0 buffers, invalid streams, zero sources) plus one call from the cheap subset, an "
+    "optional second start, then destroy; for a never started handle one symbolic call then destroy; blocking "
+    "forever is permitted here (timing is decided by H_stop/H_wait/H_poll); the child performs no I/O",
 ]
 prop("C14", units=["reproc/src/reproc.c (all entry points)", "reproc/src/error.posix.c"] + START_UNITS[1:],
      assumptions=HIST_ASSUME, outside=["sequences longer than K calls after start", "Windows", "fork-mode children"])
-add("C14", lambda tier: [history_job(tier, 0), history_job(tier, 1)])
+add("C14", lambda tier: history_jobs(tier, 0) + [unit_job(4, "errstr")] +
+    (history_jobs(tier, 1) if tier == "thorough" else []))
 
 # ------------------------------------------------------------------ leaf units
 
@@ -203,3 +220,113 @@ prop("C18", units=["reproc/src/process.windows.c (argument_should_escape, argume
 add("C18", lambda tier: [win_job(1, "argv-2x2", 2, 2), win_job(2, "env", 2, 2)] +
     ([win_job(1, "argv-1x4", 1, 4, timeout=3000), win_job(1, "argv-3x2", 3, 2, timeout=3000),
       win_job(1, "argv-2x3", 2, 3, timeout=3000)] if tier == "thorough" else [win_job(1, "argv-1x3", 1, 3)]))
+
+# ------------------------------------------------------------------ stream contents
+
+
+def io_job(tier, errmode):
+    R, S = (3, 3) if tier == "quick" else (4, 4)
+    return Job("h_io", variant="err%d-R%d-S%d" % (errmode, R, S),
+               defines={"VP_R": R, "VP_S": S, "VP_ERRMODE": errmode, "VP_IO": 1, "VP_MAXEV": S + 1,
+                        "VP_NFD": 16, "VP_NOFD": 16, "VP_LOG": 6},
+               unwind=18, params={"nfd": 16, "retry": 2, "input_max": 0},
+               cbmc_flags=["--slice-formula"], timeout=2400, solvers=("cadical", "kissat"),
+               bounds={"parent_calls": R, "child_io_actions": S, "pipe_capacity_bytes": 2,
+                       "buffer_sizes": "0..3", "stderr": ["parent", "own pipe", "stdout"][errmode]})
+
+IO_ASSUME = COMMON_ASSUME + [
+    "POSIX model with VP_IO: pipes are FIFOs of 2 bytes (stand-in for 64 KiB; PIPE_BUF scaled to 1); the "
+    "child performs at most S actions from {write one byte to stdout/stderr, close stdout/stderr/stdin, "
+    "read one byte from stdin}, each at a solver-chosen moment (between or during the parent's calls), and "
+    "may exit at any time; bytes are symbolic",
+    "SIGPIPE is ignored in the parent (write to a pipe without reader returns EPIPE)",
+    "the handle comes from the real reproc_start (stdin/stdout pipes, stderr parent / own pipe / stdout)",
+]
+prop("C02", units=["reproc/src/reproc.c (reproc_read, reproc_write, reproc_close, setup_input)",
+                   "reproc/src/pipe.posix.c (pipe_read, pipe_write)"] + START_UNITS,
+     assumptions=IO_ASSUME, outside=["payloads beyond the byte logs (6 bytes per direction)", "kernel pipe "
+                                     "semantics (they are the model)", "the Windows socket-shutdown path"])
+add("C02", lambda tier: [io_job(tier, 0), io_job(tier, 1), io_job(tier, 2)])
+
+
+def _scale_cwd(workdir):
+    """scratch copy of process.posix.c with CWD_BUF_SIZE_INCREMENT 4096 -> 4 (must match once)"""
+    from .runner import SRC, Inconclusive
+    d = os.path.join(workdir, "repo_scaled")
+    os.makedirs(d, exist_ok=True)
+    src = open(os.path.join(SRC, "process.posix.c")).read()
+    old = "#define CWD_BUF_SIZE_INCREMENT 4096"
+    if src.count(old) != 1:
+        raise Inconclusive("cannot scale CWD_BUF_SIZE_INCREMENT: definition not found exactly once")
+    open(os.path.join(d, "process.posix.c"), "w").write(src.replace(old, "#define CWD_BUF_SIZE_INCREMENT 4"))
+    return ["-I" + d]
+
+
+def cwd_job(tier):
+    return Job("h_cwd", variant="inc4", defines={"VP_NFD": 8, "VP_NOFD": 8, "VP_CWDMAX": 12},
+               unwind=34, prepare=_scale_cwd, timeout=900, solvers=("cadical", "kissat"),
+               params={"str_max": 12, "cwd_growths": 3},
+               bounds={"cwd_bytes": 10, "path_bytes": 3, "CWD_BUF_SIZE_INCREMENT": "4 (scaled from 4096)",
+                       "faults": 2})
+
+
+prop("C03", units=["reproc/src/process.posix.c (path_is_relative, path_prepend_cwd, process_start: program, "
+                   "environment, chdir, exec)", "reproc/src/strv.c"],
+     assumptions=START_ASSUME + [
+         "H_cwd: CWD_BUF_SIZE_INCREMENT is 4 instead of 4096 in a scratch copy of process.posix.c (one line, "
+         "checked to match exactly once); getcwd returns any string of 1..10 bytes starting with '/'; "
+         "calloc/realloc/getcwd may fail (2 faults); heap blocks in a canary-guarded arena",
+         "H_strv: vectors of <= 2 strings of <= 2 arbitrary non-NUL bytes, NULL vectors, one allocation fault",
+         "child side of H_start: argv pointer identity, program string, environ contents and chdir at exec",
+     ],
+     outside=["execvp's PATH search and what the kernel hands to the new image", "Windows (CreateProcessW)",
+              "working directories longer than 10 bytes (beyond: only the unscaled code's arithmetic, same shape)"])
+add("C03", lambda tier: [cwd_job(tier), unit_job(5, "strv", {"VP_L": 2})] +
+    start_jobs(tier, 1, types=(1, 5) if tier == "quick" else (1, 2, 3, 5, 6, 7)))
+
+# ------------------------------------------------------------------ poll
+
+
+def poll_job(tier):
+    n = 2 if tier == "quick" else 3
+    return Job("h_poll", variant="N%d" % n,
+               defines={"VP_N": n, "VP_NCHILD": n, "VP_NPIPE": 4 * n, "VP_NFD": 3 + 4 * n + 1,
+                        "VP_NOFD": 3 + 8 * n + 1, "VP_MAXEV": n},
+               unwind=3 + 8 * n + 3, params={"n_sources": n},
+               cbmc_flags=["--slice-formula"], timeout=2400, solvers=("cadical", "kissat"),
+               bounds={"sources": n, "pending_bytes": "0..2 per stream"})
+
+
+POLL_ASSUME = COMMON_ASSUME + [
+    "H_poll: handles are constructed directly in an arbitrary state satisfying the representation "
+    "invariant (every pipe field is -1 or an open library descriptor of the right end; the exit pipe is "
+    "present unless the status is known) instead of being produced by reproc_start; per stream: no pipe / "
+    "open with the child's end open or closed and 0..2 bytes pending; child running (exits at any time or "
+    "never), dead-unreaped or reaped; deadline none / future / expired; the child performs no I/O during "
+    "the call (only its exit changes readiness)",
+    "exact virtual clock; a tie between timeout and deadline may go either way",
+]
+prop("C09", units=["reproc/src/reproc.c (reproc_poll, find_earliest_deadline, expiry, contains_valid_pipe)",
+                   "reproc/src/pipe.posix.c (pipe_poll)"],
+     assumptions=POLL_ASSUME, outside=["output produced by the child during the wait (H_io covers read after data)",
+                                       "more sources than the stated bound", "the Windows socket-shutdown path "
+                                       "(proved unreachable on POSIX by the recursion unwinding assertion)"])
+add("C09", lambda tier: [poll_job(tier)])
+
+
+prop("C08", units=["reproc/src/reproc.c (reproc_poll, reproc_wait, expiry, find_earliest_deadline, reproc_start: "
+                   "deadline)", "reproc/src/clock.posix.c (now)", "reproc/src/pipe.posix.c (pipe_poll)"],
+     assumptions=POLL_ASSUME + STOP_ASSUME[2:], outside=["real-time accuracy of poll(2)", "a clock that steps backwards",
+                                                        "output produced during the wait"])
+add("C08", lambda tier: [unit_job(2, "expiry", {"VP_N": 3 if tier == "quick" else 4}), unit_job(3, "clock"),
+                         stop_job(2, tier), poll_job(tier)] + start_jobs(tier, 0, F=0, types=(1,)))
+prop("C01", units=["reproc/src/process.posix.c (parse_status, process_wait)", "reproc/src/process.windows.c "
+                   "(process_wait)", "reproc/src/reproc.c (reproc_wait, reproc_stop, reproc_terminate, reproc_kill, "
+                   "reproc_destroy)"],
+     assumptions=STOP_ASSUME + HIST_ASSUME[-1:], outside=STOP_OUTSIDE + ["that the kernel reports the right status",
+                                                                        "grandchildren holding the exit pipe"])
+add("C01", lambda tier: [unit_job(1, "parse_status"), win_job(3, "process_wait"), stop_job(0, tier), stop_job(2, tier)] +
+    history_jobs(tier, 0, which=(1, 2, 3, 4)))
+add("C05", lambda tier: [stop_job(1, tier)] + history_jobs(tier, 0, which=(5, 6, 7)) + [history_job(tier, 1, 7)])
+add("C06", lambda tier: [stop_job(0, tier)] + history_jobs(tier, 0, which=(2, 3, 4)))
+add("C15", lambda tier: history_jobs(tier, 0, which=(0,)))
